@@ -15,3 +15,4 @@ CFG = {
     'floors': {'all': [('fork:phase2-B:refused', 1), ('security-error:phase2-B', 1), ('consistent:phase2-B:served', 1), ('conc:cas-conflict-forced', 1), ('conc:random:winner=A', 1), ('one-client:install-race-forced', 1), ('one-client:install-race-retry-observed', 1), ('growing:write-conflict-observed', 1)]},
     'assumptions': ['Ed25519 signatures cannot be forged and SHA-256 has no collisions'],
 }
+CFG['level_text'] += ' Restarting-client scenarios also lose the stored head (or roll it back to the common prefix) while the cache survives, look a cached record up and then meet the forked server.'
